@@ -36,6 +36,9 @@ func scenarios(thorough bool) []scen {
 		{"thr-hold|set|close", base, []string{"thr-on", "set"}, true},
 		{"thr-on,thr-off|set,get", base, []string{"thr-on,thr-off", "set,get"}, false},
 		{"txn|get|close", base, []string{"txn", "get"}, true},
+		// a commit that fails because of Close must not leave later transactions waiting forever
+		{"txn,txn|close", base, []string{"txn,txn"}, true},
+		{"thr-hold|txn,view|close", base, []string{"thr-on", "txn,view"}, true},
 		{"set|set|set(queue=2)", base, []string{"set", "set", "set"}, false},
 	}
 	if thorough {
@@ -79,6 +82,8 @@ func run(db *NoKV.DB, op string, n int, log *[]string, closed *bool) {
 		txn := db.NewTransaction(true)
 		_ = txn.Set(key, []byte("t"))
 		err = txn.Commit()
+	case "view":
+		err = db.View(func(txn *NoKV.Txn) error { _, e := txn.Get(key); _ = e; return nil })
 	case "thr-on":
 		db.VerifSetThrottle(true)
 	case "thr-off":
@@ -151,9 +156,9 @@ func main() {
 	basedir := r.Scratch()
 	total := r.RunSharded(vr.Workers(), func(sh vr.ShardInfo, p *vr.Partial) {
 		dir := fmt.Sprintf("%s/w%d", basedir, sh.Index)
-		for _, sc := range scs {
+		for si, sc := range scs {
 			sub := vr.NewPartial()
-			schedmc.Explore(setupFor(sc, dir), opts(sc.name), sh, sub, r.Expired)
+			schedmc.Explore(setupFor(sc, dir), opts(sc.name), sh, sub, r.Share(si, len(scs)))
 			for k := range sub.Violations {
 				v := &sub.Violations[k]
 				// canonical: scenario + mechanism (the mechanism alone would merge unrelated hangs)
